@@ -1,6 +1,7 @@
 """Sidecar contracts for blackbird_python/blackbird/__init__.py (C07: load() resolves includes relative to the file; C01/C09: dumps is serialize)."""
 MODULE = "blackbird_python/blackbird/__init__.py"
 GLOBALS = ["_VAR", "_PARAMS"]
+GLOBAL_TYPES = {"_VAR": "dict", "_PARAMS": "list"}      # type invariants of the module tables (assumed at entry, kept by every summary)
 
 CONTRACTS = {
     "load": {"params": ["filename"], "reads": ["_VAR", "_PARAMS"], "modifies": ["_VAR", "_PARAMS"], "raises": "any", "spec": "spec_load",
